@@ -20,9 +20,17 @@ for m in spec:
     if only and m["name"] != only: continue
     path = f"{W}/repo/{m['file']}"
     src = open(path).read()
-    if src.count(m["old"]) != 1:
-        results.append({"name": m["name"], "verdict": f"SKIP: old occurs {src.count(m['old'])} times"}); print(results[-1]); continue
-    open(path, "w").write(src.replace(m["old"], m["new"]))
+    if "line" in m:
+        lines = src.split("\n")
+        ln = m["line"] - 1
+        if m["old"] not in lines[ln]:
+            results.append({"name": m["name"], "verdict": f"SKIP: line {m['line']} does not contain old"}); print(results[-1]); continue
+        lines[ln] = lines[ln].replace(m["old"], m["new"], 1)
+        open(path, "w").write("\n".join(lines))
+    else:
+        if src.count(m["old"]) != 1:
+            results.append({"name": m["name"], "verdict": f"SKIP: old occurs {src.count(m['old'])} times"}); print(results[-1]); continue
+        open(path, "w").write(src.replace(m["old"], m["new"]))
     verdicts = []
     for c in m["checks"]:
         rc, out = sh(f"VERIF_REPO={W}/repo bin/check {c}", f"{W}/verif")
